@@ -106,6 +106,73 @@ func suiteIsolation(c *Ctx) {
 	// documents that name no Redis keys (in-memory exports) imported under new keys, twice
 	jsonCrossBackend(c)
 	isolationDegenerate(c)
+	isolationSameElement(c)
+}
+
+// isolationSameElement: a fixed case, whatever the seed - sketches of equal depth and different width
+// (two Count-Min sketches, two Top-K structures, one in-memory Count-Min for good measure) all
+// receive the SAME elements, strictly alternating.  Each must end exactly as it ends when it is fed
+// alone: nothing computed for one structure (positions, keys, buffers) may be reused for another.
+func isolationSameElement(c *Ctx) {
+	type st struct {
+		name   string
+		update func(e []byte)
+		obs    func() string
+	}
+	build := func() []st {
+		a, e1 := gostatix.NewCountMinSketchRedis(2, 5)
+		b, e2 := gostatix.NewCountMinSketchRedis(2, 7)
+		m, e3 := gostatix.NewCountMinSketch(2, 11)
+		t1 := gostatix.NewTopKRedis(2, 0.5, 0.5)
+		t2 := gostatix.NewTopKRedis(2, 0.25, 0.5)
+		if e1 != nil || e2 != nil || e3 != nil || t1 == nil || t2 == nil {
+			return nil
+		}
+		cmsObs := func(exp func() ([]byte, error)) func() string {
+			return func() string { d, _ := parseCMS(exp()); return matrixStr(d.M) }
+		}
+		tkObs := func(t *gostatix.TopKRedis) func() string {
+			return func() string { d, _ := parseTopK(t.Export()); return matrixStr(d.S.M) + " " + heapStr(d.H) }
+		}
+		return []st{
+			{"cms.redis(2x5)", func(e []byte) { a.Update(e, 1) }, cmsObs(a.Export)},
+			{"cms.redis(2x7)", func(e []byte) { b.Update(e, 1) }, cmsObs(b.Export)},
+			{"cms.mem(2x11)", func(e []byte) { m.Update(e, 1) }, cmsObs(m.Export)},
+			{"topk.redis(er=0.5)", func(e []byte) { t1.Insert(e, 1) }, tkObs(t1)},
+			{"topk.redis(er=0.25)", func(e []byte) { t2.Insert(e, 1) }, tkObs(t2)},
+		}
+	}
+	elems := [][]byte{[]byte("a"), []byte("a"), []byte("bb"), []byte("a"), eqPool[len(eqPool)-1], eqPool[len(eqPool)-1], []byte("bb")}
+	c.mr.FlushAll()
+	solo := build()
+	if solo == nil {
+		return
+	}
+	c.rep.Cases++
+	want := make([]string, len(solo))
+	for i, s := range solo {
+		for _, e := range elems {
+			safely(func() { s.update(e) })
+		}
+		want[i] = s.obs()
+	}
+	c.mr.FlushAll()
+	inter := build()
+	if inter == nil {
+		return
+	}
+	for _, e := range elems {
+		for _, s := range inter {
+			safely(func() { s.update(e) })
+		}
+	}
+	for i, s := range inter {
+		if got := s.obs(); got != want[i] {
+			c.fail([]string{"C19", "C03", "C04"}, "structure-disturbed", fmt.Sprintf("%s fed the same elements as four other sketches, strictly alternating, ends as %.160s; fed alone it ends as %.160s", s.name, got, want[i]), map[string]interface{}{"structure": s.name})
+			return
+		}
+	}
+	c.branch("same-elements-alternating")
 }
 
 // isolationDegenerate: structures of degenerate size (a Bloom filter of zero bits: error rate 1,
